@@ -939,3 +939,7 @@ mod tests {
         );
     }
 }
+
+#[cfg(kani)]
+#[path = "/verif/kani/ops.rs"]
+mod verif_kani;
